@@ -54,6 +54,7 @@ def parseOp (t : String) : Option SOp :=
   | 'p' => some (.pt tag)
   | 'r' => some .rs
   | 'o' => some (.emit ((parseInt num).getD 0))
+  | 'x' => some .throw
   | _ => none
 
 def splitSemi (ws : List String) : List (List String) :=
